@@ -611,6 +611,7 @@ func c18Responses(c *core.Ctx, p c18Params) {
 	type want struct {
 		kind   string // result resource error
 		code   string
+		msg    string // expected error message ("" = not checked)
 		result string // canonical JSON of expected result
 		rid    string
 	}
@@ -646,8 +647,101 @@ func c18Responses(c *core.Ctx, p c18Params) {
 		{"access", "m", act{Op: "reply", K: "access", V: "none"}, want{kind: "error", code: "system.accessDenied"}},
 		{"access", "m", act{Op: "reply", K: "granted"}, want{kind: "result", result: mk(map[string]interface{}{"get": true, "call": "*"})}},
 		{"new", "m", act{Op: "reply", K: "new", V: "valid"}, want{kind: "result", result: mk(map[string]interface{}{"rid": "svc.m.created"})}},
+		// error responses decode to the code AND message the handler supplied; the library's own
+		// messages for its predefined errors are the documented ones, whatever happened before
+		{"call", "m", act{Op: "reply", K: "notfound"}, want{kind: "error", code: "system.notFound", msg: "Not found"}},
+		{"call", "m", act{Op: "reply", K: "methodnotfound"}, want{kind: "error", code: "system.methodNotFound", msg: "Method not found"}},
+		{"call", "m", act{Op: "reply", K: "invalidparams", V: ""}, want{kind: "error", code: "system.invalidParams", msg: "Invalid parameters"}},
+		{"call", "m", act{Op: "reply", K: "invalidparams", V: "bad params"}, want{kind: "error", code: "system.invalidParams", msg: "bad params"}},
+		{"call", "m", act{Op: "reply", K: "invalidquery", V: ""}, want{kind: "error", code: "system.invalidQuery", msg: "Invalid query"}},
+		{"get", "m", act{Op: "reply", K: "invalidquery", V: ""}, want{kind: "error", code: "system.invalidQuery", msg: "Invalid query"}},
+		{"get", "m", act{Op: "reply", K: "invalidquery", V: "bad query"}, want{kind: "error", code: "system.invalidQuery", msg: "bad query"}},
+		{"call", "m", act{Op: "reply", K: "error", V: "predef-invalidquery"}, want{kind: "error", code: "system.invalidQuery", msg: "Invalid query"}},
+		{"call", "m", act{Op: "reply", K: "error", V: "predef-notfound"}, want{kind: "error", code: "system.notFound", msg: "Not found"}},
+		{"auth", "m", act{Op: "reply", K: "error", V: "predef-invalidparams"}, want{kind: "error", code: "system.invalidParams", msg: "Invalid parameters"}},
+		{"call", "m", act{Op: "reply", K: "error", V: "predef-accessdenied"}, want{kind: "error", code: "system.accessDenied", msg: "Access denied"}},
+		{"call", "m", act{Op: "reply", K: "error", V: "predef-methodnotfound"}, want{kind: "error", code: "system.methodNotFound", msg: "Method not found"}},
+		{"call", "m", act{Op: "reply", K: "error", V: "predef-timeout"}, want{kind: "error", code: "system.timeout", msg: "Request timeout"}},
+		{"call", "m", act{Op: "reply", K: "error", V: "predef-internal"}, want{kind: "error", code: "system.internalError", msg: "Internal error"}},
+		{"access", "m", act{Op: "reply", K: "denied"}, want{kind: "error", code: "system.accessDenied", msg: "Access denied"}},
+		{"call", "m", act{Op: "reply", K: "error", V: "reserr"}, want{kind: "error", code: "custom.code", msg: errRes.Message}},
+		{"call", "m", act{Op: "reply", K: "error", V: "reserr-nomsg"}, want{kind: "error", code: "custom.nomsg", msg: "<empty>"}},
 	}
+	// query requests answered by query callbacks with the library's and with their own
+	// invalid-query, not-found and error messages - before and between the cases above
+	queryReplies := func() bool {
+		for _, reply := range []string{"invalidquery:no such filter", "invalidquery:", "notfound", "error-predef", "invalidquery:second message"} {
+			reply := reply
+			start := rn.rig.C.Len()
+			if err := rn.rig.S.With("svc.m.q18", func(r res.Resource) {
+				r.QueryEvent(func(qr res.QueryRequest) {
+					if qr == nil {
+						return
+					}
+					switch {
+					case strings.HasPrefix(reply, "invalidquery:"):
+						qr.InvalidQuery(strings.TrimPrefix(reply, "invalidquery:"))
+					case reply == "notfound":
+						qr.NotFound()
+					default:
+						qr.Error(res.ErrInvalidQuery)
+					}
+				})
+			}); err != nil {
+				c.Inconclusive("With: " + err.Error())
+				return false
+			}
+			var subj string
+			for i := 0; i < 2000 && subj == ""; i++ {
+				for _, m := range rn.rig.C.Since(start) {
+					if m.Subject == "event.svc.m.q18.query" {
+						var qe struct {
+							Subject string `json:"subject"`
+						}
+						json.Unmarshal(m.Data, &qe)
+						subj = qe.Subject
+					}
+				}
+				if subj == "" {
+					time.Sleep(time.Millisecond)
+				}
+			}
+			inbox, qd := newInbox(), make(chan struct{})
+			qdoneMap.Store(inbox, qd)
+			if subj == "" || rn.rig.C.Deliver(subj, inbox, []byte(`{"query":"a=1"}`)) != 1 || !waitCh(qd, 2*time.Second) {
+				// the query event (20 ms here) expired before the request got through: no case
+				c.Obs("query_request_error_replies_skipped", 1)
+				continue
+			}
+			resp, _ := replies(rn.rig.C.Since(start), inbox)
+			c.Eval(1)
+			c.Obs("query_request_error_replies", 1)
+			if len(resp) != 1 {
+				continue
+			}
+			pr := resprot.ParseResponse(resp[0].Data)
+			wantCode, wantMsg := "system.invalidQuery", "Invalid query"
+			switch {
+			case reply == "notfound":
+				wantCode, wantMsg = "system.notFound", "Not found"
+			case strings.HasPrefix(reply, "invalidquery:") && reply != "invalidquery:":
+				wantMsg = strings.TrimPrefix(reply, "invalidquery:")
+			}
+			if !pr.HasError() || pr.Error.Code != wantCode || pr.Error.Message != wantMsg {
+				c.Violation("C18/query-response-error", fmt.Sprintf("query callback answered with %s: the response %s decodes to %s, want code %q message %q", reply, resp[0].Payload, jsonStr(pr.Error), wantCode, wantMsg),
+					map[string]interface{}{"callback_reply": reply, "response": resp[0].Payload})
+			}
+		}
+		return true
+	}
+	if !queryReplies() {
+		return
+	}
+	defer checkPredefinedErrors(c, "C18")
 	for i := 0; i < p.N/50; i++ {
+		if i > 0 && i%len(cases) == 0 && i/len(cases) <= 3 && !queryReplies() {
+			return
+		}
 		cs := cases[i%len(cases)]
 		pk := []int{0, 1}[(i/len(cases))%2] // plain and http payloads (meta)
 		sc := script{cs.a}
@@ -695,6 +789,8 @@ func c18Responses(c *core.Ctx, p c18Params) {
 		case "error":
 			if pr.Error.Code != cs.w.code {
 				c.Violation("C18/response-error-code", fmt.Sprintf("parsed error code %q, want %q", pr.Error.Code, cs.w.code), desc)
+			} else if wm := strings.Replace(cs.w.msg, "<empty>", "", 1); cs.w.msg != "" && pr.Error.Message != wm {
+				c.Violation("C18/response-error-message:"+cs.w.code, fmt.Sprintf("response %s decodes to message %q, the handler supplied %q", resp[0].Payload, pr.Error.Message, wm), desc)
 			}
 		case "resource":
 			if string(pr.Resource) != cs.w.rid {
